@@ -25,6 +25,9 @@ pub enum DamageKind {
     /// field of one entry set to an extreme value (reaches the code behind the decoder, which
     /// random bytes almost never do).
     HunkField,
+    /// Not damage: rewrite a BANDTAIL the way Conserve 0.6.0-0.6.3 wrote it, without
+    /// `index_hunk_count` (a legal state of format 0.6).
+    LegacyTail,
 }
 
 #[derive(Clone, Debug, PartialEq, Serialize, Deserialize)]
@@ -79,6 +82,11 @@ pub struct InjBand {
     pub tail: Option<u64>,
     /// hunks in order; `None` = that hunk file is missing
     pub hunks: Vec<Option<Vec<InjEntry>>>,
+    /// how the tail (if any) is written: 0 with the hunk count, 1 as versions before 0.6.4
+    /// wrote it (no count), 2 zero-length (a kill between creating and filling the file:
+    /// the file exists, so the version counts as complete)
+    #[serde(default)]
+    pub tail_form: u8,
 }
 
 pub fn inject_bands(w: &World, bands: &[InjBand]) {
@@ -91,7 +99,12 @@ pub fn inject_bands(w: &World, bands: &[InjBand]) {
 "#[..]);
             }
             if let Some(n) = b.tail {
-                m.put_file(&format!("{dir}/BANDTAIL"), format!("{{\"end_time\":1700000001,\"index_hunk_count\":{n}}}\n").into_bytes());
+                let bytes = match b.tail_form {
+                    1 => b"{\"end_time\":1700000001}\n".to_vec(),
+                    2 => Vec::new(),
+                    _ => format!("{{\"end_time\":1700000001,\"index_hunk_count\":{n}}}\n").into_bytes(),
+                };
+                m.put_file(&format!("{dir}/BANDTAIL"), bytes);
             }
             for (i, h) in b.hunks.iter().enumerate() {
                 let Some(entries) = h else { continue };
@@ -273,6 +286,16 @@ pub fn apply_damage(w: &World, path: &str, kind: &DamageKind, arg: u64) -> bool 
                     _ => e["mtime_nanos"] = serde_json::json!(999_999_999u64 + 2),
                 }
                 m.put_file(path, crate::format::snappy_compress(&serde_json::to_vec(&v).unwrap()));
+            }
+            DamageKind::LegacyTail => {
+                let Ok(mut v) = serde_json::from_slice::<Value>(&old) else { return false };
+                let Some(obj) = v.as_object_mut() else { return false };
+                if obj.remove("index_hunk_count").is_none() {
+                    return false;
+                }
+                let mut bytes = serde_json::to_vec(&v).unwrap();
+                bytes.push(b'\n');
+                m.put_file(path, bytes);
             }
             DamageKind::BitFlip => {
                 if old.is_empty() {
@@ -556,6 +579,26 @@ pub fn gen_history(r: &mut Rng, check: &str, seed: u64, hc: &HistoryCfg) -> Scen
         steps,
         params: Value::Null,
     }
+}
+
+/// Archives written by Conserve 0.6.0-0.6.3 have tails without `index_hunk_count`. After some
+/// of the completed backups of a history, rewrite the tail that way (band ids are predicted as
+/// in `gen_history`; a step naming a tail that does not exist does nothing).
+pub fn sprinkle_legacy_tails(r: &mut Rng, sc: &mut Scenario) {
+    let mut out = Vec::new();
+    let mut next = 0u32;
+    for s in sc.steps.drain(..) {
+        let faultless_backup = matches!(&s, Step::Backup { plan, .. } if plan.is_faultless());
+        let is_backup = matches!(&s, Step::Backup { .. });
+        out.push(s);
+        if is_backup {
+            if faultless_backup && r.chance(1, 3) {
+                out.push(Step::Damage { path: format!("{}/BANDTAIL", crate::format::band_dir_name(next)), kind: DamageKind::LegacyTail, arg: 0 });
+            }
+            next += 1;
+        }
+    }
+    sc.steps = out;
 }
 
 /// Bands the archive model holds in each state, for evidence samples.
